@@ -36,7 +36,7 @@ def _worker(task):
     return out, work, stats
 
 
-def explore_parallel(I, entry, args, leaf_fn, workers=None, budget=24, max_leaves=2000000, time_limit=None, progress=None):
+def explore_parallel(I, entry, args, leaf_fn, workers=None, budget=24, max_leaves=2000000, time_limit=None, progress=None, on_results=None):
     """returns (list of leaf_fn results, stats)"""
     global _JOB
     workers = workers or int(os.environ.get('VERIF_WORKERS', '0')) or min(16, os.cpu_count() or 4)
@@ -49,8 +49,10 @@ def explore_parallel(I, entry, args, leaf_fn, workers=None, budget=24, max_leave
         queue = [{}]
         while queue:
             out, rest, st = _worker(([queue.pop()], budget))
-            queue.extend(rest); results.extend(out); _merge(stats, st)
-            if len(results) > max_leaves or (time_limit and time.time() - t0 > time_limit):
+            queue.extend(rest); _merge(stats, st); stats['paths'] += len(out)
+            if on_results: on_results(out)
+            else: results.extend(out)
+            if stats['paths'] > max_leaves or (time_limit and time.time() - t0 > time_limit):
                 stats['truncated'] = True; break
         _finish(stats, results, t0)
         return results, stats
@@ -67,10 +69,10 @@ def explore_parallel(I, entry, args, leaf_fn, workers=None, budget=24, max_leave
             done, futs = wait(futs, return_when=FIRST_COMPLETED)
             for f in done:
                 out, rest, st = f.result()
-                queue.extend(rest); results.extend(out); _merge(stats, st)
-            if progress and len(results) % 200 < 24:
-                progress(len(results), len(queue))
-            if len(results) > max_leaves or (time_limit and time.time() - t0 > time_limit):
+                queue.extend(rest); _merge(stats, st); stats['paths'] += len(out)
+                if on_results: on_results(out)
+                else: results.extend(out)
+            if stats['paths'] > max_leaves or (time_limit and time.time() - t0 > time_limit):
                 stats['truncated'] = True
                 for f in futs: f.cancel()
                 break
@@ -85,7 +87,7 @@ def _merge(stats, st):
 
 def _finish(stats, results, t0):
     stats['wall'] = time.time() - t0
-    stats['paths'] = len(results)
+    if results: stats['paths'] = len(results)
     stats['unsupported'] = [r for r in results if isinstance(r, dict) and 'unsupported' in r]
     stats['called'] = sorted(stats['called']); stats['modelled'] = sorted(stats['modelled'])
     stats['summarized'] = sorted(stats['summarized'])
